@@ -715,6 +715,8 @@ fn main() {
         // first; (C) mmap() fails at the moment of the open (ENOMEM / ENODEV / EAGAIN): either the
         // open fails, or the context answers like any other.
         clock::fixed::install();
+        clock::fixed::set_boot_offset(3_600_000_000_000);
+        clock::fixed::set_real_coarse_lag(3_000_000);
         BLUR_NS.store(arg_u64(&args, "blur", 1000) as i64, std::sync::atomic::Ordering::Relaxed);
         let dir = PathBuf::from(format!("/dev/shm/cbverif-contexts.{}", std::process::id()));
         std::fs::create_dir_all(&dir).unwrap();
@@ -957,6 +959,11 @@ fn main() {
     }
 
     clock::fixed::install();
+    // Clocks with other semantics than the two the client is documented to read: the machine has been
+    // suspended for an hour (CLOCK_BOOTTIME is ahead of the monotonic clock), the coarse realtime
+    // clock lags the precise one by 3 ms.
+    clock::fixed::set_boot_offset(3_600_000_000_000);
+    clock::fixed::set_real_coarse_lag(3_000_000);
     // Hostile caller state, by shard: signals arriving on the calling thread (no SA_RESTART), and a
     // standard error that refuses every write.
     let hostile_signals = mode == "sweep" && shard % 2 == 1;
